@@ -545,6 +545,14 @@ Definition simplify_test_fuel (fuel : nat) (e : texpr) : option (texpr * bool) :
   end.
 Definition simplify_test (e : texpr) : option (texpr * bool) := simplify_test_fuel (tsize e) e.
 
+Fixpoint wf_test (e : texpr) : bool :=
+  match e with
+  | TWord w => wf_word w
+  | TUn _ x => wf_test x
+  | TBin _ x y => wf_test x && wf_test y
+  | TParen x => wf_test x
+  end.
+
 (* ---- Spec: the truth value of a [[ ]] expression ---- *)
 Section TestSem.
   Variable pval : bool -> N -> str -> str.
